@@ -385,8 +385,8 @@ def rule_r1_r2(toks, hits):
             # R8: a `mut self` receiver is a mutable local: `self` + `let mut this = self;`, body renamed
             out.extend(T('let mut this = self;'))
             nb = []
-            for t in body:
-                if t.kind == 'ident' and t.text == 'self':
+            for kk, t in enumerate(body):
+                if t.kind == 'ident' and t.text == 'self' and not (kk + 1 < len(body) and body[kk + 1].text == '::'):
                     nb.append(Tok('ident', 'this', t.trivia, t.line))
                 else:
                     nb.append(t)
@@ -807,10 +807,12 @@ def generate(unit, canary=False, expand=True):
                 gen = ttoks
             else:
                 status = 'merged'
-                if item.kind not in ('fn', 'struct'):
+                if item.kind == 'const':
+                    gen = rebuild_const(toks, item, stoks)
+                elif item.kind not in ('fn', 'struct'):
                     raise LostAnchor('%s :: %s: definition differs from the template (only functions and structs are merged): %s'
                                      % (rel, ' :: '.join(path), first_diff(et, es)))
-                if item.kind == 'struct':
+                elif item.kind == 'struct':
                     gen = rebuild_struct(toks, item, stoks)
                 else:
                     gen = merge(ttoks, stoks)
@@ -888,6 +890,20 @@ def generate(unit, canary=False, expand=True):
     unit.text = ''.join(out_chunks)
     unit.assumes = [m.group(1).strip() for m in re.finditer(r'//@ASSUME[ \t]+(.*)', unit.text)]
     return unit
+
+
+def rebuild_const(toks, item, stoks):
+    """a constant whose definition differs from the template: the source's definition, made pub"""
+    out = list(toks[item.start:item.hstart])
+    for t in out:
+        t.ghost = True
+    pub = T('pub')[0]
+    pub.ghost = True
+    pub.trivia = toks[item.hstart].trivia if not out else ' '
+    out.append(pub)
+    for t in stoks:
+        out.append(Tok(t.kind, t.text, t.trivia if t.trivia else ' ', t.line))
+    return out
 
 
 def rebuild_struct(toks, item, stoks):
